@@ -117,6 +117,65 @@ def one(w, tr, prev, st, s, raw, route):
             pass
 
 
+def every_facade_method(w, chk, events):
+    """a CHECK CONDITION / BUSY completion surfaces through EVERY facade method, whatever optional argument is set"""
+    import inspect
+    from .c13 import METHODS, PRIN, optional_args
+    from .c17 import _cscd, _seg
+    ec = mod("pyscsi.pyscsi.scsi_enum_command")
+    calls = []
+    for m, (cls, req, fmt) in sorted(METHODS.items()):
+        variants = [(cls, None)] if cls != "#prin" else [(PRIN[k][0], k) for k in PRIN]
+        for c, sa in variants:
+            opt = [n for n in optional_args(cmds.klass(c)) if n not in req]
+            for o in [None] + opt:
+                def call(f, m=m, req=req, o=o, sa=sa, c=c):
+                    args = []
+                    for n in req:
+                        args.append(sa if n == "service_action" else (bytearray(4) if n == "data" else 1))
+                    kw = {o: 1} if o else {}
+                    if m.startswith("atapassthrough"):
+                        kw.setdefault("blocksize", 4)
+                    if m == "readcd":
+                        kw.setdefault("est", 1)
+                        kw.setdefault("mcsb", 2)
+                    return getattr(f, m)(*args, **kw)
+                setname = [x for x in ("sbc", "smc", "mmc", "spc", "ssc") if cmds.opcode(c, x) is not None][0]
+                calls.append(("%s(%s)" % (m, o or ""), m, call, setname))
+    page = {"medium_type": 0, "device_specific_parameter": 0, "mode_pages": [{"ps": 0, "spf": 0, "page_code": 0x0A, "swp": 1}]}
+    for pf in (0, 1):
+        calls.append(("modeselect6(pf=%d)" % pf, "modeselect6", lambda f, pf=pf: f.modeselect6(dict(page), pf=pf), "sbc"))
+        calls.append(("modeselect10(pf=%d)" % pf, "modeselect10", lambda f, pf=pf: f.modeselect10(dict(page, longlba=0), pf=pf), "sbc"))
+    for sa in range(0, 9):
+        calls.append(("persistentreserveout(%d)" % sa, "persistentreserveout",
+                      lambda f, sa=sa: f.persistentreserveout(sa, 0, 1, reservation_key=1, service_action_reservation_key=2), "sbc"))
+    for k in ("sequential_striped", "nrcr", "priority", "list_identifier", None):
+        calls.append(("extendedcopy4(%s)" % k, "extendedcopy4", lambda f, k=k: f.extendedcopy4(**({k: 1} if k else {})), "sbc"))
+    for k in ("sequential_striped", "list_id_usage", "priority", "g_sense", "immed", "list_identifier", None):
+        calls.append(("extendedcopy5(%s)" % k, "extendedcopy5", lambda f, k=k: f.extendedcopy5(**({k: 1} if k else {})), "sbc"))
+    n = 0
+    for tr in ("sgio", "iscsi"):
+        for st, s in ((2, "f1"), (2, "d2"), (8, "none"), (0x18, "none")):
+            for label, m, call, setname in calls:
+                dev = w.device(tr)
+                try:
+                    w.state.update(st=0, s=None)
+                    facade = mod("pyscsi.pyscsi.scsi").SCSI(dev, 4)
+                    dev.opcodes = getattr(ec, setname)
+                    w.state.update(st=st, s=SENSE[s])
+                    raw = m.startswith("atapassthrough")
+                    o = observe(lambda: call(facade), lambda: None)
+                    events.append({"tr": tr, "st": st, "s": s, "raw": raw, "o": o, "route": "facade:" + label, "prev": "none"})
+                    chk.ev.case((tr, "facade", label, st, s))
+                    n += 1
+                finally:
+                    try:
+                        dev.close()
+                    except Exception:
+                        pass
+    return n
+
+
 def match(o, a):
     return (o["how"] == a["how"] and (a["exc"] == "*" or o["exc"] == a["exc"])
             and (a["exc"] != "CheckCondition" or (o["key"], o["asc"], o["ascq"]) == (a["key"], a["asc"], a["ascq"]))
@@ -174,6 +233,7 @@ def run(chk, replay=None):
                                          c["raw"], c["prev"] != "none"))
         ev.replayed(len(events))
         ev.sample({"spec_case": cases[10], "observed": events[10]["o"]})
+        ev.cov["facade_method_calls_with_failing_target"] = every_facade_method(w, chk, events)
         # code -> spec: random fault sequences on a few long-lived command objects
         rng = random.Random(chk.seed)
         seq = []
